@@ -511,11 +511,11 @@ fn fs_nested(cfg: &Cfg) {
             7u32
         };
         let r = if shape == 0 || shape == 3 {
-            let f = desync::scheduler::future_desync(&qa, inner_job);
+            let f = sched().future_desync(&qa, inner_job);
             rec.ret(outer);
             block_on(f)
         } else {
-            let f = desync::scheduler::future_sync(&qa, inner_job).boxed();
+            let f = sched().future_sync(&qa, inner_job).boxed();
             rec.ret(outer);
             block_on(f)
         };
@@ -701,7 +701,7 @@ fn indep(cfg: &Cfg) {
 /// polls A's future again.  When the awaited event fires, A's queue - the woken operation and the desync behind it - must be
 /// served by the free pool thread although the task's wake-up is stuck behind B.
 fn indep_wake(cfg: &Cfg) {
-    use desync::scheduler::scheduler;
+    use crate::h::sched as scheduler;
     setup(0);
     let pool = cfg.pool();
     let w = World::new();
@@ -774,7 +774,7 @@ fn indep_wake(cfg: &Cfg) {
 /// maximum is raised to `to` through the public `set_max_threads`: every waiting object that fits under the new maximum
 /// must be served although the objects ahead of it stay blocked.
 fn indep_raise(cfg: &Cfg) {
-    use desync::scheduler::scheduler;
+    use crate::h::sched as scheduler;
     let pool = cfg.pool();
     setup(pool);
     let to = cfg.get("to") as usize;
@@ -815,7 +815,7 @@ fn indep_raise(cfg: &Cfg) {
 /// is inside `despawn_threads_if_overloaded` (which may have to wait for that thread).  The pool still has a free thread
 /// and the maximum exceeds the number of blocked objects: work on other objects must run while the gate is still closed.
 fn indep_despawn(cfg: &Cfg) {
-    use desync::scheduler::scheduler;
+    use crate::h::sched as scheduler;
     let pool = cfg.pool();
     setup(pool);
     let w = World::new();
@@ -1188,7 +1188,7 @@ fn drop_obj(cfg: &Cfg) {
 ///  runner 0: the suspend future is awaited by a task (local drain when pool 0); 1: not polled until suspended by the pool
 ///  resume 0: resume()  1: drop the resumer
 fn suspend(cfg: &Cfg) {
-    use desync::scheduler::scheduler;
+    use crate::h::sched as scheduler;
     let pool = cfg.pool();
     setup(pool);
     let (resume_mode, with_sync, stale) = (cfg.opt("resume", 0), cfg.opt("sync", 1) == 1, cfg.opt("stale", 0) == 1);
@@ -1221,6 +1221,13 @@ fn suspend(cfg: &Cfg) {
             g.open();
             g.fire_stale();
         }));
+    }
+    // `late`=1: there is no pool thread until the suspension has been reported (the task awaiting the suspend future runs the
+    // queue up to the suspension point itself); the pool only appears while the queue is suspended
+    let late = cfg.opt("late", 0) == 1;
+    if late {
+        scheduler().verif_set_max_threads(0);
+        rt::set_census_limit(POOL_NAME, 0);
     }
     w.desync(&o, "BEFORE", Body::plain());
     // `race`=1: another thread schedules an operation at the same time as the suspend request is made: it lands either
@@ -1261,6 +1268,15 @@ fn suspend(cfg: &Cfg) {
         }
     };
     check_held("at resolution");
+    if late {
+        rt::set_census_limit(POOL_NAME, pool);
+        if cfg.opt("api", 0) == 1 {
+            // through the public call, which starts threads eagerly: they look at the schedule and go dormant again
+            scheduler().set_max_threads(pool);
+        } else {
+            scheduler().verif_set_max_threads(pool);
+        }
+    }
     let race_at_resolution = w.rec.all().into_iter().find(|r| r.name == "RACE").map(|r| (r.starts.len(), r.ends.len()));
     if let Some((s, e)) = race_at_resolution {
         if s != e {
@@ -1345,7 +1361,7 @@ fn panic_contain(cfg: &Cfg) {
             // `revive`=1: beforehand, with one pool thread, a future operation came and went on this queue and left a (stale)
             // queue waker behind; the pool is then taken away for the panic phase, comes back, and the stale waker fires
             if cfg.opt("revive", 0) == 1 {
-                use desync::scheduler::scheduler;
+                use crate::h::sched as scheduler;
                 scheduler().verif_set_max_threads(1);
                 rt::set_census_limit(POOL_NAME, 1);
                 w.future_desync(&bad, "EARLY-FD", Body::gated(&revive_gate)).detach();
@@ -1383,7 +1399,7 @@ fn panic_contain(cfg: &Cfg) {
         }
     }
     if cfg.opt("revive", 0) == 1 {
-        use desync::scheduler::scheduler;
+        use crate::h::sched as scheduler;
         scheduler().verif_set_max_threads(pool.max(1));
         rt::set_census_limit(POOL_NAME, pool.max(1));
         revive_gate.fire_stale();
@@ -1552,7 +1568,7 @@ fn panic_many(cfg: &Cfg) {
 ///  n: number of concurrent scheduling threads (distinct queues); phase 1: raise the maximum and schedule more;
 ///  phase 2: lower it and despawn
 fn pool_census(cfg: &Cfg) {
-    use desync::scheduler::scheduler;
+    use crate::h::sched as scheduler;
     let pool = cfg.pool();
     // `api`=1: the maximum is changed through the public `set_max_threads` (which eagerly starts threads) instead of the hook
     let api = cfg.opt("api", 0) == 1;
